@@ -249,9 +249,20 @@ impl BlockWorld {
         }
         // (5) no leftovers: registry <-> connection state
         let srv = self.srv.as_ref().unwrap();
-        let (waiters, wakeq, _flags) = srv.h.blocking.verif_snapshot();
+        let (waiters, wakeq, flags) = srv.h.blocking.verif_snapshot();
         if wakeq != 0 {
             problems.push("wake-queue-not-empty-at-quiescence".to_string());
+        }
+        // the registry's set of keys that have waiters (consulted by pushes and by the wake-up pass) agrees with the queues
+        {
+            let mut with_waiters: Vec<(usize, Vec<u8>)> = waiters.iter().map(|w| (w.db, w.key.clone())).collect();
+            with_waiters.sort();
+            with_waiters.dedup();
+            let mut flagged = flags.clone();
+            flagged.sort();
+            if flagged != with_waiters {
+                problems.push("registry-set-of-keys-with-waiters-disagrees-with-the-wait-queues".to_string());
+            }
         }
         let rows = (srv.h.connections)();
         for c in 0..2 {
@@ -562,10 +573,14 @@ impl World for BlockWorld {
         };
         let s = s.replace(&format!("order={}", self.blocked[0].as_ref().map(|b| b.since_step).unwrap_or(0)), "").replace(&format!("order={}", self.blocked[1].as_ref().map(|b| b.since_step).unwrap_or(0)), "");
         let srv = self.srv.as_ref().unwrap();
-        let (waiters, wakeq, _) = srv.h.blocking.verif_snapshot();
+        let (waiters, wakeq, flags) = srv.h.blocking.verif_snapshot();
         let idx = |id: u64| (0..3).find(|i| self.conns[*i].as_ref().map(|c| c.id) == Some(id)).map(|i| i as i64).unwrap_or(-1);
         let reg: Vec<String> = waiters.iter().map(|w| format!("{}:{}:c{}:{}", w.db, String::from_utf8_lossy(&w.key), idx(w.conn_id), w.op)).collect();
-        let full = format!("{}order={:?} reg={:?} wakeq={} sweeper-phase={}", s, order, reg, wakeq, (now - self.t0) % 1_000_000_000);
+        // (every piece of registry state goes into the fingerprint: two states that differ only in the set of
+        // flagged keys have different futures - a seeded change that left a waiter unflagged was merged away without it)
+        let mut flagged: Vec<String> = flags.iter().map(|(db, k)| format!("{}:{}", db, String::from_utf8_lossy(k))).collect();
+        flagged.sort();
+        let full = format!("{}order={:?} reg={:?} flagged={:?} wakeq={} sweeper-phase={}", s, order, reg, flagged, wakeq, (now - self.t0) % 1_000_000_000);
         Ok(crate::report::fnv128(full.as_bytes()))
     }
 
